@@ -88,7 +88,15 @@ pub fn bellerophon<F: RawFloat, const FORMAT: u128>(num: &Number, lossy: bool) -
     // Track errors to as a factor of unit in last-precision.
     let mut errors: u32 = 0;
     if num.many_digits {
-        errors += error_halfscale();
+        // The significant digits were truncated, so the real significand lies
+        // in `[mantissa, mantissa + 1)`. Once the mantissa is scaled so the
+        // most-significant bit is set, that is up to `2^(ctlz + 1)` units in
+        // the last place, not half of one.
+        let shift = num.mantissa.leading_zeros() + 1;
+        errors += match shift < 24 {
+            true => error_scale() << shift,
+            false => error_scale() << 24,
+        };
     }
 
     // Multiply by the small power.
